@@ -190,13 +190,15 @@ pub struct Ser {
 	pub xs: Vec<Q>,
 	/// magnitude of the whole history incl. the pad
 	pub mag: f64,
+	/// every element of the whole history (incl. the pad) is an exactly given integer
+	pub all_int: bool,
 	cap: usize,
 	count: usize,
 }
 
 impl Ser {
 	pub fn new(pad: Q) -> Self {
-		Self { pad, xs: Vec::new(), mag: pad.v.abs() + if pad.r.is_finite() { pad.r } else { 0.0 }, cap: usize::MAX, count: 0 }
+		Self { pad, xs: Vec::new(), mag: pad.v.abs() + if pad.r.is_finite() { pad.r } else { 0.0 }, all_int: pad.r == 0.0 && pad.v.fract() == 0.0, cap: usize::MAX, count: 0 }
 	}
 	/// retains only what a lookback of `cap` elements needs
 	pub fn with_cap(pad: Q, cap: usize) -> Self {
@@ -214,6 +216,7 @@ impl Ser {
 		if q.v.is_finite() {
 			self.mag = self.mag.max(q.v.abs() + if q.r.is_finite() { q.r } else { 0.0 });
 		}
+		self.all_int &= q.r == 0.0 && q.v.is_finite() && q.v.fract() == 0.0;
 		self.xs.push(q);
 		self.count += 1;
 		if self.cap != usize::MAX && self.xs.len() >= 2 * self.cap + 8 {
@@ -223,6 +226,12 @@ impl Ser {
 	}
 	pub fn pushv(&mut self, v: f64) {
 		self.push(Q::exact(v));
+	}
+	/// "exactly summable history" (DESIGN §4.2): every element so far is an integer and any sum of
+	/// `terms` of them (or of their pairwise differences) stays far below 1/eps, so every from-scratch
+	/// evaluation of a division-free definition is exact in any order - and so is a windowed running sum
+	pub fn exactly_summable(&self, terms: usize) -> bool {
+		self.all_int && (terms as f64 + 2.0) * 2.0 * self.mag * eps() < 0.125
 	}
 	/// number of stream elements so far
 	pub fn t(&self) -> usize {
